@@ -13,7 +13,7 @@ import sys
 
 import numpy as np
 
-from . import repo, seams, simclock, simdisk, simmp, simset
+from . import repo, seams, simclock, simcrash, simdisk, simmp, simset
 from .core import H
 
 
@@ -64,16 +64,22 @@ def run_driver(argv, cwd, workers, sched_seed, max_iter, crash=None,
                     pass
 
             st = _Stats()
-            simmp.arm(workers, H(sched_seed), stats=st, clock=simclock.CLOCK)
+            simcrash.install()
+            simmp.arm(workers, H(sched_seed), stats=st, clock=simclock.CLOCK,
+                      on_item=simcrash.step)
 
-            def on_crash():
+            def on_crash(kind=None):
+                if kind:
+                    st.inc('fault.crash_at_compute_step.' + kind)
                 emit(('disk', list(simdisk.STATE['trace']), st.n,
                       simclock.CLOCK.elapsed()))
                 os._exit(77)
 
+            simcrash.arm(crash_at=(crash or {}).get('at_step'),
+                         on_crash=on_crash)
             simdisk.arm(stats=st,
-                        crash_at=crash['at_event'] if crash else None,
-                        crash_torn=crash.get('torn') if crash else None,
+                        crash_at=(crash or {}).get('at_event'),
+                        crash_torn=(crash or {}).get('torn'),
                         save_fault=save_fault,
                         fault_prefixes=('SL_', 'M0_'),
                         on_crash=on_crash)
